@@ -246,6 +246,17 @@ pub fn matrix() -> Vec<MatrixCase> {
         add("set_and_test", format!("{{% set c = {u} %}}[{{{{ c is defined }}}}]"), NEVER, "[False]");
         add("with_and_test", format!("{{% with c = {u} %}}[{{{{ c is undefined }}}}]{{% endwith %}}"), NEVER, "[True]");
     }
+    // the silent undefined of an else-less inline if (`x if false`): printing it is documented
+    // to yield nothing in every mode, but it is an undefined like any other for attribute and
+    // item access and for the never-failing tests
+    for su in ["(i if false)", "(m if u is defined)", "(s if not true)"] {
+        add("attr_of_silent_undefined", format!("[{{{{ {su}.a is undefined }}}}]"), ACCESS, "[True]");
+        add("item_of_silent_undefined", format!("[{{{{ {su}[0] is undefined }}}}]"), ACCESS, "[True]");
+        add("str_item_of_silent_undefined", format!("[{{{{ {su}['k']|default('d') }}}}]"), ACCESS, "[d]");
+        add("attr_of_silent_undefined_via_set", format!("{{% set su = {su} %}}[{{{{ su.k is defined }}}}]"), ACCESS, "[False]");
+        add("silent_undefined_is_defined", format!("[{{{{ {su} is defined }}}}|{{{{ {su} is undefined }}}}|{{{{ {su}|default('d') }}}}]"), NEVER, "[False|True|d]");
+        add("print_silent_undefined", format!("[{{{{ {su} }}}}]"), NEVER, "[]");
+    }
     // the same sites where the output is thrown away or produced by another template: after
     // `extends` at the top level of a child, at the top level of an imported module, in an
     // included template, in an inherited block (a missing variable is undefined everywhere)
@@ -342,7 +353,7 @@ impl Part for Matrix {
 crate::declare_parts!(Monotone, Matrix);
 
 pub fn run(ctx: &mut Ctx) {
-    ctx.rule = "monotonicity: free-mode programs (every construct, every built-in filter/test/function in every argument position, companions for include/import/extends) over the standard context with a random subset of its keys removed, rendered under Strict, SemiStrict, Lenient and Chainable; for every stricter/weaker pair success of the stricter implies success of the weaker with byte-identical output. matrix: 40 site rows x 4 kinds of undefined operand (missing variable, missing attribute, index beyond a list, missing key) x 4 modes, plus 18 multi-template rows (the same sites after `extends` where output is discarded, at the top level of imported modules, in included templates, inherited and overriding blocks, call blocks, macro defaults), enumerated completely against the documented fail/yield table. Non-trivial: the recording context saw a lookup miss and (two modes differ in outcome or all four succeed). Distinct by case.".into();
+    ctx.rule = "monotonicity: free-mode programs (every construct, every built-in filter/test/function in every argument position, companions for include/import/extends) over the standard context with a random subset of its keys removed, rendered under Strict, SemiStrict, Lenient and Chainable; for every stricter/weaker pair success of the stricter implies success of the weaker with byte-identical output. matrix: 40 site rows x 4 kinds of undefined operand (missing variable, missing attribute, index beyond a list, missing key) x 4 modes, plus 6 rows x 3 spellings of the silent undefined of an else-less inline if (access fails outside Chainable, printing and the tests never fail) and 18 multi-template rows (the same sites after `extends` where output is discarded, at the top level of imported modules, in included templates, inherited and overriding blocks, call blocks, macro defaults), enumerated completely against the documented fail/yield table. Non-trivial: the recording context saw a lookup miss and (two modes differ in outcome or all four succeed). Distinct by case.".into();
     ctx.assumptions = vec![
         "debug() is excluded (it prints the engine state, which names the undefined behaviour)".into(),
         "cases that hit the fuel limit or fail to load are skipped (counted under the label skipped_load_error_or_fuel)".into(),
